@@ -362,9 +362,9 @@ pub fn run_part(seed: u64, tier: Tier, part: usize, nparts: usize, progress: &mu
     progress("short literals done");
 
     // (1b) adversarial literals, (2) attribute bodies, (3) item shapes: proptest dice, seeded per part
-    let n_lit = tier.pick(6_000, 120_000) / nparts;
-    let n_attr = tier.pick(60_000, 1_500_000) / nparts;
-    let n_shape = tier.pick(8_000, 160_000) / nparts;
+    let n_lit = tier.pick(16_000, 160_000) / nparts;
+    let n_attr = tier.pick(240_000, 2_000_000) / nparts;
+    let n_shape = tier.pick(24_000, 200_000) / nparts;
     let mut runner = runner_for(seed, "C18", part as u32 + 1);
     let dice = proptest::collection::vec(proptest::num::u16::ANY, 96..=96);
     for t in draw(&mut runner, &dice, n_lit) {
